@@ -1,9 +1,10 @@
 (* Extraction for the "c06" driver (C06 flux-sector solver).  ExtrOcamlBasic only:
    nat, positive, Z stay the extracted inductive types. *)
-From Koala Require Import Model.AStar Model.FluxSolver Gen.AnsatzGen.
+From Koala Require Import Model.Lattice Model.AStar Model.Flux Model.FluxSolver Model.FluxSolverLattice Gen.AnsatzGen.
 Require Extraction.
 Require Import ExtrOcamlBasic.
 Extraction "model.ml"
   fs_solve fs_fluxes_ujk fs_fluxes_bonds fs_wf fs_pm1 fs_pairing_ok fs_path_ok fs_where_neg
   fs_flip_adjacent fs_map2 fs_sign_real ground_state_ansatz
-  fs_greedy_run greedy_pairing fs_replay_pick fs_replay_nearest.
+  fs_greedy_run greedy_pairing fs_replay_pick fs_replay_nearest
+  plaq_of_arrays fsl_plaqs fsl_adj fsl_path as_path fs_solve_astar fs_connected_b fs_find_boundary fs_complete_open.
